@@ -216,6 +216,48 @@ func C15(ctx *core.Ctx) {
 		}
 		return false
 	}
+	// failure path: a close that did not happen takes its stop token back — otherwise the token
+	// stays pending and the reader loop takes the next genuine stream failure for a requested close
+	{
+		isTokenSend := func(in ssa.Instruction) bool {
+			for _, ss := range SendSites(closeFn) {
+				if ss.Instr == in && fieldNameOfAddr(ss.Chan) == "closeSignal" {
+					return true
+				}
+			}
+			return false
+		}
+		isTokenRecv := func(in ssa.Instruction) bool {
+			for _, rs := range RecvSites(closeFn) {
+				if rs.Instr == in && fieldNameOfAddr(rs.Chan) == "closeSignal" {
+					return true
+				}
+			}
+			return false
+		}
+		failRet := func(in ssa.Instruction) bool {
+			ret, ok := in.(*ssa.Return)
+			return ok && !successRet(ret)
+		}
+		var tokenSend ssa.Instruction
+		ssax.Instrs(closeFn, func(in ssa.Instruction) {
+			if isTokenSend(in) {
+				tokenSend = in
+			}
+		})
+		if tokenSend == nil {
+			ctx.Discharge("C15.R4", cn+" › no stop token is left behind by a failed close", fnPos(r, closeFn), "close() sends no token")
+		} else {
+			bad := ssax.PathFrom(closeFn, tokenSend, failRet, isTokenRecv)
+			if bad == nil {
+				ctx.Discharge("C15.R4", cn+" › no stop token is left behind by a failed close", r.IPos(tokenSend), "every failing return after the token was sent is preceded by taking it back")
+			} else {
+				ctx.Violate("C15.R4", cn+" › no stop token is left behind by a failed close", r.IPos(tokenSend),
+					"close() can return an error (the transport stays open) with its stop token still pending: the reader loop consumes it at the next genuine read failure, takes that failure for a requested close and exits silently — the transport stays 'open', no cause is published and the monitor never reopens",
+					ssax.PathString(r.V.Fset, bad)...)
+			}
+		}
+	}
 	mn, mx := ssax.CountOnPathsTo(closeFn, nil, isCauseSend, successRet)
 	ctx.Check(mn == 1 && mx == 1, "C15.R4", cn+" › exactly one cause published on the success path", fnPos(r, closeFn),
 		"exactly one send on closeChan on every successful close", sprintf("a successful close publishes the cause %d..%d times (must be exactly once)", mn, mx))
